@@ -1036,6 +1036,16 @@ extern int64_t c02_call_saving (void *fun, int64_t arg);
 static MIR_context_t ctxs[NENG];
 static const char *eng_names[NENG] = {"interp", "gen0", "gen1", "gen2", "gen3"};
 
+/* @ADDR cases: an engine that computes another address than the documented one usually dies; the engine is named
+   (<engine>=ERR(signal-n)), its context replaced, and the batch goes on.  All other cases keep the default action. */
+#include <signal.h>
+static sigjmp_buf run_jmp;
+static volatile int run_catch;
+static void run_signal (int sig) {
+  if (run_catch) siglongjmp (run_jmp, sig);
+  signal (sig, SIG_DFL);
+}
+
 static int run_mode (void) {
   char line[2000];
   case_t c;
@@ -1082,7 +1092,25 @@ static int run_mode (void) {
       MIR_finish_module (ctx);
       MIR_load_module (ctx, m);
       fill_block (&c);
-      if (!strcasecmp (c.opname, "@ADDR")) addr_pre (&c);
+      if (!strcasecmp (c.opname, "@ADDR")) {
+        int sig;
+        addr_pre (&c);
+        signal (SIGSEGV, run_signal);
+        signal (SIGBUS, run_signal);
+        if ((sig = sigsetjmp (run_jmp, 1)) != 0) {
+          run_catch = 0;
+          addr_off = -1;
+          printf (" %s=ERR(signal-%d)", eng_names[e], sig);
+          ctxs[e] = MIR_init (); /* the old context is abandoned in whatever state the signal left it */
+          MIR_set_error_func (ctxs[e], err_func);
+          if (e > 0) {
+            MIR_gen_init (ctxs[e]);
+            MIR_gen_set_optimize_level (ctxs[e], e - 1);
+          }
+          continue;
+        }
+        run_catch = 1;
+      }
       save_block ();
       int64_t ret;
       if (e == 0) {
@@ -1096,6 +1124,7 @@ static int run_mode (void) {
         void *fun = MIR_gen (ctx, func);
         ret = c02_call_saving (fun, (int64_t) (intptr_t) block);
       }
+      run_catch = 0;
       addr_post ();
       print_obs (eng_names[e], ret);
     }
